@@ -1589,7 +1589,7 @@ zshPrefixLoop:
 		}
 	case colon: // slicing
 		if p.lang.in(LangZsh) && (p.r == '&' || asciiLetter(p.r)) {
-			pos := p.pos
+			pos := p.nextPos() // the first modifier starts after the colon
 		loop:
 			for p.newLit(p.r); ; p.rune() {
 				switch p.r {
